@@ -157,6 +157,12 @@ def gen_family(rng, modname):
             if 'default' in i_:
                 i_['default'] = sanitize(i_['default'])
         c['base'] = 'Task'
+    if rng.random() < 0.3:
+        # a list-valued parameter left at its declared default that the run uses as scratch space (appends in place): every helper and every
+        # real chain starts from the declared default
+        c = rng.choice(list(classes.values()))
+        if all(p['name'] != 'acc_' for p in c['params']):
+            c['params'].append({'name': 'acc_', 'default': [0]})
     return classes
 
 
@@ -287,6 +293,10 @@ def real_eval(rmod, classes, modname, real, mocks, given, data_dir, requests):
 
 
 def run(ctx):
+    import os
+    # (ambient state the helpers do not depend on: an environment variable that looks like a configuration knob)
+    os.environ['TASKCHAIN_TEST_DIR'] = str(ctx.tmpdir() / 'env-test-dir')
+    os.environ['TASKCHAIN_DATA_DIR'] = str(ctx.tmpdir() / 'env-data-dir')
     quiet()
     root = ctx.tmpdir()
     (root / 'tmp').mkdir(exist_ok=True)
